@@ -391,6 +391,31 @@ MANIFEST_TEXT["C18"] = {
     "design_ref": "DESIGN.md section 3 / C18",
 }
 
+PLAN["C20"] = {
+    "pkg": "c20",
+    "tests": [
+        {"name": "TestInspectionCoversRuns", "quick": (12000, 16), "thorough": (800000, 16)},
+    ],
+    "budget": {"quick": 600, "thorough": 5400},
+    "rule": SCENARIO_RULE + "Flows use every action/router type that saves results or references assets (set_run_result, webhook, resthook, "
+            "classifier, open_ticket, transfer_airtime, routers with result names; fixed group/field/label/flow/channel/topic/user/template/"
+            "global/classifier/optin references; no name_match expression references). Oracle at the end of each scenario, per run and its "
+            "flow's Inspect(): every stored result and run_result_changed key is listed (categories case-insensitively among the listed "
+            "ones when any are listed); every exit by which a resumed waiting step was left is a waiting exit; every fixed asset seen in "
+            "the run's events (flow_entered, static groups added, field changed, labels added, ticket topic/assignee, msg templating, "
+            "classifier called, optin requested) and every field/global referenced in templates of executed actions, and set_contact_channel "
+            "channels, is a dependency. Non-trivial = at least one result, asset or waiting exit was observed; distinct by (assets, observed "
+            "kinds, number of resumes).",
+    "assumptions": COMMON_ASSUMPTIONS + ["result keys compared through utils.Snakify, categories case-insensitively (the inspection's own notion of identity when merging specs)",
+                                         "groups changed by query re-evaluation or by a status change are not attributed to the flow"],
+}
+MANIFEST_TEXT["C20"] = {
+    "technique": "property-based testing (rapid, stateful): dynamic-subset-of-static oracle relating events/results/exits of generated executions to Flow.Inspect() of the same flow",
+    "level_text": "Exploration: everything generated runs saved, touched or left a wait by was listed by inspection, except the one listed finding (open_ticket).",
+    "level_note": "One-directional (dynamic subset of static) as the property states; references inside templates are recognised by two regular expressions over the action JSON.",
+    "design_ref": "DESIGN.md section 3 / C20",
+}
+
 # every property without a registered check is listed here with the reason (kept current as checks are added)
 NOT_APPLICABLE = [{"property_id": pid, "reason": "check not built yet in this round (planned in DESIGN.md); nothing is claimed for it"}
                   for pid in ALL_IDS if pid not in PLAN]
